@@ -3790,6 +3790,24 @@ func newStorageCapabilityControllerSetTargetFunction(
 			capabilityID,
 		)
 
+		// Update the target path of the controller and write the controller back.
+		// Only changing the target path of the loaded controller in memory
+		// does not mark the slab which contains the controller as changed,
+		// so the new target path would get lost when the storage gets committed,
+		// unless the slab happens to get changed for another reason
+
+		controller.TargetPath = newTargetPathValue
+
+		existed := context.WriteStored(
+			address,
+			common.StorageDomainCapabilityController,
+			interpreter.Uint64StorageMapKey(capabilityID),
+			controller,
+		)
+		if !existed {
+			panic(errors.NewUnreachableError())
+		}
+
 		addressValue := interpreter.AddressValue(address)
 
 		handler.EmitEvent(context, StorageCapabilityControllerTargetChangedEventType, []interpreter.Value{
